@@ -4,27 +4,30 @@ SPEC = {
     "gen": [],
     "streams": [
         {"name": "sched", "cmd": "sched",
-         "args": {"quick": ["-cases", "100"], "thorough": ["-cases", "3000"]},
+         "args": {"quick": ["-cases", "140"], "thorough": ["-cases", "3000"]},
          "search_args": ["-cases", "700"]},
     ],
     "trusted_base": [
         "Coq 8.16.1 kernel (coqc; coqchk in the thorough tier); no native_compute",
-        "harness/cmd/sched + verif-tagged go/consensus/cometbft/apps/scheduler/export_verif.go (builds mock application states through the real registry/staking/beacon/scheduler state setters, calls the real Application.elect and EndBlock, reads pending/current validators and committees back from the scheduler state; records inputs and outputs as Coq terms)",
-        "the shuffles are abstract in the model: the harness obtains the index lists actually used from the real initRNG/shuffleAddresses/rng.Perm through the export wrapper (one table entry per list length) and feeds them to the model; the DRBG and math/rand are not modelled",
+        "harness/cmd/sched + verif-tagged go/consensus/cometbft/apps/scheduler/export_verif.go and export_verif_vrf.go (builds mock application states through the real registry/staking/beacon/consensus/scheduler state setters incl. the VRF state with real proofs, calls the real Application.BeginBlock (shouldElect + elect) and EndBlock, reads pending/current validators and committees back from the scheduler state; records inputs and outputs as Coq terms; 32-byte identifiers and hashed betas are rendered by their first 8 bytes, distinctness asserted)",
+        "the shuffles are abstract in the model: the harness obtains the index lists actually used from the real initRNG/shuffleAddresses/rng.Perm through the export wrapper (one table entry per list length) and, for the VRF backend, the hashed betas of the submitted proofs in every election context from the real TupleHash hashers, and feeds them to the model; the DRBG, math/rand, ECVRF and TupleHash are not modelled",
         "vm_compute evaluation of Verif.Sched.Elect.run_epoch and of the proved-sound checker Verif.Sched.ElectSpec.impl_ok_b on the recorded cases (no extraction)",
         "identifier encoding: 32-byte keys, 21-byte staking addresses and runtime namespaces are compared as big-endian numbers (= bytes.Compare on equal lengths); an entity is identified by its staking address",
-        "not modelled: VRF-based elections (hashed betas), TEE runtimes (attestation verification), DebugForceElect, reward distribution, the shouldElect trigger (epoch change / slashing)",
+        "CapabilityTEE.Verify is abstract (its verdict is a model input); the harness only produces TEE capabilities whose attestation does NOT verify, so the accepting branch of a TEE runtime is covered by the proof only",
+        "not modelled: DebugForceElect, reward distribution, how the beacon application derives PrevVRFState / node ElectionEligibleAfter, what emits the TakeEscrowEvent that triggers a re-election",
     ],
     "assumptions": [
         "scheduler parameters are non-negative; the count bound is max(1, MaxValidators) because the limit is checked after the insertion (InitChain rejects MaxValidators <= 0; a governance change is unchecked, see max_validators_zero_elects_one_refuted)",
         "validators_by_descending_stake and elect_per_entity need the tie-break index lists to be permutations (what rng.Shuffle/rng.Perm produce) and consensus keys to be unique (kept by the registry, C17); elect_sound and committee_sound hold for arbitrary index lists",
         "diff_applies needs both sets to be maps (unique keys: they are Go maps) and pending powers non-zero (proved: elect_powers_nonzero)",
-        "beacon backend insecure (entropy-based shuffles); consensus feature version either below or at 26.1",
+        "validators_by_descending_stake_vrf: under sortition only entities with a node that submitted a VRF proof take part (sortNodesByHashedBeta drops the others), hashed betas pairwise distinct (no TupleHash collision)",
+        "engine_tracks_elected: the engine applies an update list as upsert/remove by key (what CometBFT does); blocks_ok is what updateValidators emits, its premises are proved for every elected set (core_keys_nodup, elect_powers_nonzero)",
+        "beacon backend insecure or VRF; consensus feature version either below or at 26.1",
     ],
 }
 
 MANIFEST = {
-    "technique": "Coq proof (executable Gallina port of node filtering, validator election, validator diff and executor committee election, parameterised by the shuffles; soundness and ordering theorems for all inputs and all permutations) with differential correspondence check against the real scheduler application",
-    "level_text": "Theorems in coq/Props/C14.v hold for every registry, ledger, parameter set and every tie-breaking permutation: elected validators and committee members are registered, unexpired, unfrozen, carry the role / active runtime version and have an entity whose escrow covers its claims; count, per-entity and exact-size limits hold; validators are taken by descending stake; voting power is monotone and positive; the result depends only on the sets of nodes and accounts; the validator updates applied in any order give exactly the elected set. The model is tied to the code by running the real Application.elect + EndBlock on seeded mock states (1-4 successive epochs per case) and comparing validators with power, updates and committees exactly with the model evaluated inside Coq on the same inputs and the index lists actually used, by evaluating the proved-sound checker on the implementation's output, by running every case twice with different state insertion orders, and by an independent Go oracle of eligibility and limits.",
-    "level_note": "Trusted: Coq kernel; the harness and the verif-tagged export wrapper; the DRBG/math.rand shuffles are abstract permutations (their index lists are fed to the model). Not covered: VRF elections, TEE runtimes, DebugForceElect, rewards, the election trigger.",
+    "technique": "Coq proof (executable Gallina port of node filtering, validator election, validator diff and executor committee election (entropy and VRF sortition, TEE capability), election trigger, parameterised by the shuffles / hashed betas; soundness and ordering theorems for all inputs and all permutations) with differential correspondence check against the real scheduler application",
+    "level_text": "Theorems in coq/Props/C14.v hold for every registry, ledger, parameter set and every tie-breaking permutation: elected validators and committee members are registered, unexpired, unfrozen, carry the role / active runtime version and have an entity whose escrow covers its claims; count, per-entity and exact-size limits hold; validators are taken by descending stake; voting power is monotone and positive; the result depends only on the sets of nodes and accounts; the validator updates applied in any order give exactly the elected set and, over any sequence of blocks, the engine holds exactly the tracked current set; the same soundness holds for VRF sortition with any beta hashing; the boolean validator and committee checkers are sound. The model is tied to the code by running the real Application.elect + EndBlock on seeded mock states (1-10 successive blocks per case, insecure and VRF beacon backends) and comparing validators with power, updates and committees exactly with the model evaluated inside Coq on the same inputs and the index lists actually used, by evaluating the proved-sound checker on the implementation's output, by running every case twice with different state insertion orders, and by an independent Go oracle of eligibility and limits.",
+    "level_note": "Trusted: Coq kernel; the harness and the verif-tagged export wrapper; the DRBG/math.rand shuffles are abstract permutations (their index lists are fed to the model). Not covered: the accepting branch of TEE attestation verification in K, DebugForceElect, rewards, the beacon application's derivation of the VRF state.",
 }
